@@ -40,4 +40,12 @@ def popcount64 (v : BitVec 64) : Int :=
 /-- `bits.Len32`: minimum number of bits needed to represent `v`; 0 for 0. -/
 def len32 (v : BitVec 32) : Int := (Nat.log2 v.toNat + (if v.toNat = 0 then 0 else 1) : Nat)
 
+/-! `time` package (expression sites only, see go/extract/exprs.go): `time.Duration(f)` for a float64 `f` truncates
+toward zero (Go leaves the result unspecified outside the int64 range; `Float.toInt64` saturates there and maps NaN to 0);
+`Duration.Seconds()` is `float64(d / Second) + float64(d % Second) / 1e9`. -/
+def truncR (x : Rat) : Int := Int.tdiv x.num x.den
+def truncF (x : Float) : Int := x.toInt64.toInt
+def durSeconds (d : Int) : Rat := (Int.tdiv d 1000000000 : Rat) + (Int.tmod d 1000000000 : Rat) / 1000000000
+def durSecondsF (d : Int) : Float := Float.ofInt (Int.tdiv d 1000000000) + Float.ofInt (Int.tmod d 1000000000) / 1000000000.0
+
 end Gen
